@@ -69,6 +69,33 @@ pub fn t_local_closure(s: &str) -> Vec<String> { let digits = |part: &str| -> St
 
 pub fn t_uint_ops(s: &str) -> Vec<String> { let n = s.len() as u32; let d = (s.bytes().next().unwrap_or(3) % 7 + 1) as u32; vec![n.div_ceil(d).to_string(), n.next_multiple_of(d).to_string(), n.abs_diff(d).to_string(), n.rem_euclid(d).to_string(), n.is_power_of_two().to_string(), u128::BITS.div_ceil(d).to_string(), (n + 1).ilog2().to_string(), n.saturating_mul(4000000000).to_string()] }
 
+pub fn t_sets_maps(s: &str) -> Vec<String> {
+    use std::collections::{HashMap, HashSet};
+    let mut set: HashSet<String> = HashSet::new();
+    set.extend(s.split(',').map(|x| x.to_string()));
+    let had = set.remove("a");
+    set.retain(|x| !x.is_empty());
+    let mut map: HashMap<String, usize> = HashMap::new();
+    map.extend(s.split(',').enumerate().map(|(i, x)| (x.to_string(), i)));
+    map.retain(|k, v| !k.is_empty() && *v < 3);
+    let e = map.remove_entry("b");
+    let mut keys: Vec<String> = map.into_keys().collect(); keys.sort();
+    let mut rest: Vec<String> = set.into_iter().collect(); rest.sort();
+    let mut o = vec![had.to_string(), rest.join("|"), keys.join("|")];
+    if let Some((k, v)) = e { o.push(k); o.push(v.to_string()); }
+    o
+}
+pub fn t_option_helpers(s: &str) -> Vec<String> {
+    let first = s.chars().next(); let last = s.chars().last();
+    let mut o = vec![];
+    if let Some((a, b)) = first.zip(last) { o.push(a.to_string()); o.push(b.to_string()); }
+    o.extend((s.len() > 2).then(|| s.len().to_string()));
+    o.extend((s.len() > 3).then_some("long".to_string()));
+    o.extend(Some(first).flatten().map(|c| c.to_string()));
+    o.push(s.parse::<u32>().is_ok_and(|v| v > 5).to_string());
+    o
+}
+
 pub type TestFn = fn(&str) -> Vec<String>;
 pub const TESTS: &[(&str, TestFn)] = &[
     ("t_rsplit_once_char", t_rsplit_once_char), ("t_rsplit_once_str", t_rsplit_once_str), ("t_split_once_char", t_split_once_char), ("t_split_once_str", t_split_once_str),
@@ -80,5 +107,5 @@ pub const TESTS: &[(&str, TestFn)] = &[
     ("t_take_while", t_take_while), ("t_positions", t_positions), ("t_sum", t_sum), ("t_max_min", t_max_min), ("t_max_by_key", t_max_by_key), ("t_step_by", t_step_by), ("t_rev", t_rev),
     ("t_slice_starts", t_slice_starts), ("t_split_first", t_split_first), ("t_split_last", t_split_last), ("t_vec_ops", t_vec_ops), ("t_swap_remove", t_swap_remove), ("t_to_digit", t_to_digit),
     ("t_utf16", t_utf16), ("t_retain", t_retain), ("t_join", t_join), ("t_enumerate_filter", t_enumerate_filter), ("t_zip_chain", t_zip_chain), ("t_last_nth", t_last_nth), ("t_any_all", t_any_all),
-    ("t_fold", t_fold), ("t_uint_ops", t_uint_ops), ("t_local_closure", t_local_closure), ("t_string_ops", t_string_ops),
+    ("t_fold", t_fold), ("t_sets_maps", t_sets_maps), ("t_option_helpers", t_option_helpers), ("t_uint_ops", t_uint_ops), ("t_local_closure", t_local_closure), ("t_string_ops", t_string_ops),
 ];
